@@ -57,8 +57,13 @@ def run(ctx):
                        "acl_text": text}
                 try:
                     comp = compile_acl_text(text, cat.vendor)
+                    before = acl_digest(comp)
                     d, p = api._diff_and_patch(cat.device, cases.tree(o), cases.tree(n), comp, None, False, rb=cat.compiled[k - 1])
                     rec["cmds"] = cases.jpaths(cat.formatter.cmd_paths(p))
+                    # the compiled ACL is a cached object shared by every later use of that text: a run reads it (and may leave its scratch
+                    # `match` field behind), it does not change what the ACL says
+                    if acl_digest(comp) != before:
+                        rec["exc"] = "the compiled ACL was modified by the run (flags / names / patterns differ afterwards)"
                 except Exception as e:
                     rec["cmds"] = []
                     rec["exc"] = repr(e)
@@ -115,6 +120,18 @@ def mc_pipeline(ctx, quick):
                                                                       "design-level instance of the recorded %ordered-block finding"))
         elif r.violated:
             raise core.Machinery("MC_Pipeline entry %d: %s\n%s" % (e, r.violated, r.out[-1500:]))
+
+
+def acl_digest(comp):
+    from .c20 import canon, digest
+
+    def strip(x):
+        if isinstance(x, dict):
+            return {k: strip(v) for k, v in x.items() if k != "match"}
+        if isinstance(x, list):
+            return [strip(v) for v in x]
+        return x
+    return digest(strip(canon(comp)))
 
 
 def tree_prog(t):
